@@ -25,6 +25,10 @@ RULE = (
     "written exactly once with the MOL2-derived values, every protein/water atom keeps the force "
     "field's value, unassigned list == atoms not written.  Non-trivial = charged molecule, ring, or "
     "complex with a colliding name."
+    ' Rename-only twin (same order and bonds, new names, re-laid-out file: CRLF / tabs / blank line '
+    'in ATOM or BOND block / trailing blanks): exact equality.  complex also: ligand alternate '
+    'locations, two bound copies, titration route, serial numbers restarting, ligand residue named '
+    'like a CHARMM het group.'
 )
 ASSUMPTIONS = [
     "MOL2 encodings whose formal-charge convention is ambiguous (phosphates, N.pl3 in aromatic rings, 'am' bonds) are "
